@@ -294,7 +294,7 @@ func checkC09(ctx *RunCtx) int {
 	return finish(ctx, rep, &CheckSpec{
 		Extra: extra,
 		Prop:  "C09", Level: "exploration", EvalCounter: "quiescent_checks", NonTrivSet: "nontrivial",
-		Rule:        "random tournament histories against a world of real tables that follow the regulator's instructions (registration batches 1..4*max and bursts of 300, pending -> running -> registration closed at random points, syncs with 0-3 eliminations on random tables, releases, breaks, unknown-table calls), all settings 2<=min<=max<=10 plus 9/6, and long tournaments down to the final table. After every completed step: every live player is in exactly one of {waiting queue (hook), one table}, nobody is handed out twice or after elimination, GetPlayerCount/GetTableCount/GetTable(id).PlayerCount equal the real numbers; unknown-table syncs and late registrations must be refused with the observable state unchanged. evaluations = quiescent-point checks; non-trivial = distinct histories",
+		Rule:        "random tournament histories against a world of real tables that follow the regulator's instructions (registration batches 1..4*max and bursts of 300, pending -> running -> registration closed at random points, syncs with 0-3 eliminations on random tables, releases, breaks, unknown-table calls), all settings 2<=min<=max<=10 plus 9/6, and long tournaments down to the final table. After every completed step: every live player is in exactly one of {waiting queue (hook), one table}, nobody is handed out twice or after elimination, GetPlayerCount/GetTableCount/GetTable(id).PlayerCount equal the real numbers; unknown-table syncs (also the repeated last report of a broken table) and late registrations must be refused with the observable state unchanged. Histories include re-entries under the same id, registration batches that are windows of one roster array, tables that keep the list they were handed, releases delivered late (players counted as in transit) and a pause (status back to pending and forward). A concurrent world (registrars and table owners on different goroutines, ledger at quiescence) runs in-process and in a -race build. evaluations = quiescent-point checks; non-trivial = distinct histories",
 		Required:    []string{"class_players_waiting", "class_registration_after_deadline", "class_unknown_table", "class_table_broken", "top_ups", "releases", "long_tournaments", "class_final_table_reached"},
 		Assumptions: []string{"ReleasePlayers never validates its table id and is legitimately called with the id of a table the regulator has just deleted; 'unknown table is refused' is asserted for SyncState/GetTable only", "tables follow the protocol of the repo's own tests: eliminate, report, seat the returned players, release exactly the requested number"},
 	})
@@ -308,7 +308,7 @@ func checkC19(ctx *RunCtx) int {
 	return finish(ctx, rep, &CheckSpec{
 		Extra: extra,
 		Prop:  "C19", Level: "exploration", EvalCounter: "tables_opened", NonTrivSet: "nontrivial",
-		Rule:     "the same tournament histories with the capacity monitor inside the callbacks: every list given to requestTableFn has at most max players, every table's real membership stays <= max after each assignPlayersFn / SyncState hand-out, no table is opened while pending or before min players have registered, every table opened by the initial allocation (the first ever) has >= min players; settings grid 2<=min<=max<=10, registrant counts around multiples of max, late batches above capacity. evaluations = tables opened; non-trivial = distinct histories",
+		Rule:     "the same tournament histories with the capacity monitor inside the callbacks: every list given to requestTableFn has at most max players, every table's real membership stays <= max after each assignPlayersFn / SyncState hand-out, no table is opened while pending or before min players have registered, every table opened by the initial allocation (the first ever) has >= min players; settings grid 2<=min<=max<=10, registrant counts around multiples of max, late batches above capacity, delayed releases, pauses, re-entries; the concurrent world (capacity at quiescence) in-process and in a -race build. evaluations = tables opened; non-trivial = distinct histories",
 		Required: []string{"class_initial_allocation_tables", "class_initial_allocation_with_remainder", "class_late_batch_above_capacity", "class_late_tables", "assignments", "top_ups"},
 	})
 }
@@ -321,7 +321,7 @@ func checkC20(ctx *RunCtx) int {
 	return finish(ctx, rep, &CheckSpec{
 		Extra: extra,
 		Prop:  "C20", Level: "exploration", EvalCounter: "fixpoint_searches", NonTrivSet: "nontrivial20",
-		Rule:        "from the end state of every random history and from checkpoints inside long tournaments (any phase after the start): sweeps that sync every table once in a random order with no eliminations and carry out all instructions, until a sweep asks for no release, hand-out or break; bounded by (tables at start + 8) sweeps - convergence is restated as bounded progress, the bound exposes oscillation and does not certify a constant; a table told to break must release its whole membership and each of those players must then be queued or seated elsewhere. evaluations = fixpoint searches; non-trivial = distinct histories whose end state needed at least one rebalancing sweep; histogram of sweeps needed is in coverage.histograms",
+		Rule:        "from the end state of every random history and from checkpoints inside long tournaments (any phase after the start): sweeps that sync every table once in a random order with no eliminations and carry out all instructions, until a sweep asks for no release, hand-out or break; bounded by (tables at start + 8) sweeps - convergence is restated as bounded progress, the bound exposes oscillation and does not certify a constant; a table told to break must release its whole membership and each of those players must then be queued or seated elsewhere; the concurrent world must settle by sweeps after its concurrent phase too. evaluations = fixpoint searches; non-trivial = distinct histories whose end state needed at least one rebalancing sweep; histogram of sweeps needed is in coverage.histograms",
 		Required:    []string{"fixpoint_searches", "class_rebalancing_needed", "class_table_broken"},
 		Assumptions: []string{"liveness restated as bounded progress: no finite run decides 'eventually settles'"},
 	})
